@@ -15,18 +15,22 @@ import (
 
 // The expiry fixtures: two more servers (each on one shard only).
 //
-//	"idle": sessions time out after 120 ms without activity (no age limit), guard
+//	"idle": sessions time out after 1.5 s without activity (no age limit), guard
 //	        every 10 ms; tokens are issued already expired (TokenExpiryTimeMin=-1).
-//	"age" : sessions are dropped 4 s after creation however active they are.
+//	"age" : sessions are dropped 10 s after creation however active they are.
+//
+// The limits are small but not tiny: the harness' own administrative sessions
+// live on the same servers (refreshed every 10 ms / re-opened well before the
+// age limit) and must survive a badly overloaded machine.
 //
 // "Expired" is never assumed from a sleep: the harness polls the server's own
 // session manager until the server has dropped the session.
 const (
-	expTimeout = 120 * time.Millisecond
-	expMaxAge  = 4 * time.Second
+	expTimeout = 1500 * time.Millisecond
+	expMaxAge  = 10 * time.Second
 	// if the server still knows a session that long after it should have gone,
-	// expiry does not work at all (15x the age limit, 500x the inactivity timeout)
-	expGiveUp = 60 * time.Second
+	// expiry does not work at all (9x the age limit, 60x the inactivity timeout)
+	expGiveUp = 90 * time.Second
 )
 
 var (
@@ -46,7 +50,7 @@ func theExpiryEnv(t testing.TB, kind string) *env {
 	cfg := srvConfig{sess: so, tokenExpMin: 1440}
 	switch kind {
 	case "idle":
-		so.WithMaxSessionInactivityTime(60 * time.Millisecond).WithTimeout(expTimeout).WithMaxSessionAgeTime(0)
+		so.WithMaxSessionInactivityTime(expTimeout / 2).WithTimeout(expTimeout).WithMaxSessionAgeTime(0)
 		cfg.tokenExpMin = -1
 	case "age":
 		so.WithMaxSessionInactivityTime(0).WithTimeout(0).WithMaxSessionAgeTime(expMaxAge)
@@ -60,14 +64,14 @@ func theExpiryEnv(t testing.TB, kind string) *env {
 }
 
 // waitDropped polls until the server itself no longer knows the session.
-func waitDropped(e *env, id string, keepAlive *cred) (time.Duration, bool) {
+func waitDropped(e *env, id string, keepAlive []*cred) (time.Duration, bool) {
 	t0 := time.Now()
 	for e.x.s.SessManager.SessionPresent(id) {
 		if time.Since(t0) > expGiveUp {
 			return time.Since(t0), false
 		}
-		if keepAlive != nil {
-			e.x.ic.KeepAlive(keepAlive.ctx(), &emptypb.Empty{})
+		for _, c := range keepAlive {
+			e.x.ic.KeepAlive(c.ctx(), &emptypb.Empty{})
 		}
 		time.Sleep(5 * time.Millisecond)
 	}
@@ -98,30 +102,40 @@ func runExpired(t *testing.T, kind string) {
 	e := theExpiryEnv(t, kind)
 	x := e.x
 
+	type pending struct {
+		name, user string
+		c          *cred
+	}
+	var ps []pending
 	for _, user := range []string{sysUser, "uadm"} {
 		pass := userPw
 		if user == sysUser {
 			pass = sysPass
 		}
-		name := fmt.Sprintf("%s/session@%s[expired-%s]", user, dbA, kind)
 		c, err := x.openSession(user, pass, dbA)
 		if err != nil {
 			t.Fatalf("INFRA: open session: %v", err)
 		}
-		var ka *cred
+		ps = append(ps, pending{fmt.Sprintf("%s/session@%s[expired-%s]", user, dbA, kind), user, c})
+	}
+	for _, p := range ps {
+		var active []*cred
 		if kind == "age" {
-			ka = c // stays active (KeepAlive every 5 ms) until the server drops it for its age
+			// every session stays active (KeepAlive every 5 ms) until the server drops it for its age
+			for _, q := range ps {
+				active = append(active, q.c)
+			}
 		}
-		waited, ok := waitDropped(e, c.value, ka)
+		waited, ok := waitDropped(e, p.c.value, active)
 		if !ok {
 			en := vk.NewEnum("TestExpired")
-			en.Descf("%s never expired", name)
-			en.Failf(t, map[string]any{"principal": name, "waited": waited.String(), "fixture": kind, "inactivity_timeout": expTimeout.String(), "max_age": expMaxAge.String()},
-				"session %s is still known to the server after %v (fixture %q: inactivity timeout %v / max age %v, guard every 10ms): sessions do not expire", name, waited, kind, expTimeout, expMaxAge)
+			en.Descf("%s never expired", p.name)
+			en.Failf(t, map[string]any{"principal": p.name, "waited": waited.String(), "fixture": kind, "inactivity_timeout": expTimeout.String(), "max_age": expMaxAge.String()},
+				"session %s is still known to the server after %v (fixture %q: inactivity timeout %v / max age %v, guard every 10ms): sessions do not expire", p.name, waited, kind, expTimeout, expMaxAge)
 			return
 		}
-		t.Logf("%s dropped by the server after %v", name, waited)
-		e.addPrincipal(&principal{name: name, user: user, auth: "session", sel: dbA, state: "expired-" + kind, c: c, live: false, sys: user == sysUser})
+		t.Logf("%s dropped by the server after %v", p.name, waited)
+		e.addPrincipal(&principal{name: p.name, user: p.user, auth: "session", sel: dbA, state: "expired-" + kind, c: p.c, live: false, sys: p.user == sysUser})
 	}
 	if kind == "idle" {
 		// a token that is expired when issued
